@@ -285,7 +285,7 @@ def c05(ctx):
                   invariants=["ErrSurfaces", "WinInv", "Bounded"]), workers=8, timeout=3000, heap="12g", coverage=False)
     ctx.add_mc(rb)
     reader_check(ctx, "C05", (4, "{0, 7}", "Buf_noneB", "{TRUE, FALSE}", "Maxes_2"),
-                 ["reader:total", "reader:mutate", "reader:sched_smallcap"], gen_args=(3, "{0, 5, 7}", "{TRUE, FALSE}"),
+                 ["reader:total", "reader:mutate", "reader:sched_smallcap", "reader:chain"], gen_args=(3, "{0, 5, 7}", "{TRUE, FALSE}"),
                  thorough_mc_args=(5, "{0, 7}", "Buf_noneB", "{TRUE, FALSE}", "Maxes_2"), lb=True)
     ctx.rule = "one evaluation = one run (call history of next()/try_recover() over one input/configuration/read schedule incl. injected source errors) under catch_unwind; the monitor reads result classes, counts, the io string; distinct as for C03"
 
@@ -527,7 +527,8 @@ def c20(ctx):
 def c18(ctx):
     import derive_gen as G
     # (1) bounded model of the declaration language
-    r = C.tlc_mc("C18_MC_Derive", "MC_Derive", cfg(constants={"MaxVariants": 2 if ctx.quick else 3}, invariants=["AcceptedIsWellFormed", "AcceptedHasGlobals", "RejectsListedFaults"]), workers=12, heap="8g", coverage=False)
+    # (3 variants: > 10^9 declarations, does not finish; the thorough tier differs in the sampled volume)
+    r = C.tlc_mc("C18_MC_Derive", "MC_Derive", cfg(constants={"MaxVariants": 2}, invariants=["AcceptedIsWellFormed", "AcceptedHasGlobals", "RejectsListedFaults"]), workers=12, heap="8g", coverage=False)
     ctx.add_mc(r)
     # (2) the macro implementation as a library: acceptance of both front-ends
     n_ok, n_bad = (150, 250) if ctx.quick else (1200, 2500)
